@@ -19,7 +19,7 @@ VERIF_CONTRACT_VOID(_dispatch_queue_xref_dispose, (dispatch_queue_t dq),
   /* C17 / C06: the last application reference of a queue may only go away while the queue is neither suspended nor inactive (both are the documented client
    * crash: its queued items could never run); a queue that passes is marked RELEASED by one atomic OR that keeps every other flag */
   ENS(a_queue_that_survives_the_hook_was_not_suspended_and_is_marked_released_once, __verif_n == 1 && IS_COMMIT(0, H_flags_p) && LOGB(0) == (LOGA(0) | DQF_RELEASED)
-        && !_dq_state_is_suspended(H_state0) && !_dq_state_is_inactive(H_state0))
+        && !S_SUSPENDED(H_state0) && !(H_state0 & DISPATCH_QUEUE_INACTIVE))
 )
 void harness(void)
 {
